@@ -92,6 +92,15 @@ _add(_c("w_cdn_orth_sl_g2", "CDN", [2, 2], [3, 3, 3, 3, 3, 3], 2, "cdn", dict(or
 C11_WALLS_QUICK = ["w_lsn_nonorth_sl", "w_lsn_nonorth_sl_acw_g2", "w_lsn_nonorth_many_g0", "w_usn_nonorth_sl", "w_lsn_orth_many_acw"]
 C11_WALLS = C11_WALLS_QUICK + ["w_cdn_nonorth_sl", "w_cdn_orth_sl_g2"]
 
+# ---- C07: the x-y-derivative form of the curvature on orthogonal grids, at two resolutions
+XY = {"curvature_type": "curl(b/B) with x-y derivatives"}
+_add(_c("lsn_orth_xy", "LSN", [2, 2], [3, 4, 3], 1, "lsn", dict(orthogonal=True, **XY), fpol="quad", pressure="quad", wall="slanted"))
+_add(_c("lsn_orth_x2_xy", "LSN", [4, 4], [6, 8, 6], 1, "lsn", dict(orthogonal=True, **XY), fpol="quad", pressure="quad", wall="slanted"))
+_add(_c("lsn_orth_x4", "LSN", [8, 8], [12, 16, 12], 1, "lsn", dict(orthogonal=True), fpol="quad", pressure="quad", wall="slanted"))
+_add(_c("lsn_orth_x4_xy", "LSN", [8, 8], [12, 16, 12], 1, "lsn", dict(orthogonal=True, **XY), fpol="quad", pressure="quad", wall="slanted"))
+_add(_c("cdn_orth_xy", "CDN", [2, 2], [3, 3, 3, 3, 3, 3], 1, "cdn", dict(orthogonal=True, **DN, **XY), fpol="quad"))
+C07_PAIRS = [("lsn_orth", "lsn_orth_xy"), ("lsn_orth_x2", "lsn_orth_x2_xy"), ("lsn_orth_x4", "lsn_orth_x4_xy"), ("cdn_orth", "cdn_orth_xy")]
+
 # ---- envelope configurations (C12): in and around the supported envelope; refusal is an accepted outcome, a hang or a bad file is not
 _add(_c("env_ny1", "LSN", [2, 2], [1, 2, 1], 1, "lsn", dict(orthogonal=True), fpol="quad"))
 _add(_c("env_g4", "LSN", [2, 2], [3, 4, 3], 4, "lsn", dict(orthogonal=True), fpol="quad"))
